@@ -42,6 +42,9 @@ fn stdin_shapes(cap_hint: usize) -> Vec<(Vec<String>, String, &'static str)> {
         (vec![huge.clone()], format!("{}\n", huge), "300 characters"),
         (vec!["h\u{e9}llo".into()], "h\u{e9}llo\n".into(), "non-ASCII (UTF-8) line"),
         (vec!["\u{e9}t\u{e9}".into(), "\u{20ac} 42".into()], "\u{e9}t\u{e9}\n\u{20ac} 42\n".into(), "lines starting with a multi-byte character"),
+        (vec!["".into(), "c".into()], "\nc\n".into(), "an empty line, then a line"),
+        (vec!["".into(), "".into(), "zz".into()], "\n\nzz\n".into(), "two empty lines, then a line"),
+        (vec!["".into(), "tail".into()], "\ntail".into(), "an empty line, then a line without newline"),
     ]
 }
 
@@ -351,6 +354,7 @@ fn pairs(thorough: bool) -> Vec<Case> {
         (vec!["first".into(), "second line".into()], "first\nsecond line\n".into()),
         (vec!["only".into()], "only\n".into()),
         (vec![], "".into()),
+        (vec!["".into(), "after an empty line".into(), "third".into()], "\nafter an empty line\nthird\n".into()),
     ];
     if thorough {
         // histories of three services (all 125 ordered triples), a third input line available
@@ -485,7 +489,7 @@ pub fn run(tier: &Tier) -> i32 {
     }
     let mut cov = Coverage::default();
     cov.exhaustive = true;
-    cov.rule = "every run is the real binary with a scripted stdin (pipe closed after the script). INT 21h/02: all 256 DL values x 2 prior AL. INT 21h/01: 10 stdin shapes (closed, empty line, short, exactly capacity, longer, no trailing newline, two lines, 300 characters, UTF-8) x 2 prior AL, followed by a second read and an echo. INT 21h/0Ah: 5 buffer placements (low, offset wrap at 16 bits, crossing 2^20, ending exactly at 0xFFFFF, header split by the wrap) x capacities {0,1,2,5,16,255} (thorough: all 256) x the 9 stdin shapes, the buffer surrounded by 0xEE markers; plus a line of 1-, 2-, 3- and 4-byte characters cut by every capacity 0..length+1 (the cut falls inside a character). INT 10h/0Ah: AL x CX lattice (thorough: all 256 AL x 15 CX up to 65535). INT 10h/13h: 6 (ES,BP) placements incl. text whose high bytes form well-formed UTF-8, strings crossing 2^20 and BP+i wrapping at 16 bits x DL x CX (thorough: all 256 DL x 12 CX up to 65535). Every AH value 0..255 other than the supported ones for both interrupts, at the first / a middle / the last line. All 25 ordered pairs of services x 3 stdin scripts (thorough: all 125 ordered triples x 4 scripts). After each service the program prints all registers, the flags, the marker window around the buffer, the first 48 and the last 48 bytes of memory; service output is matched byte for byte and every printed field against the reference state. Every distinct program that reads input also runs once with a standard input on which every read fails and must end normally".into();
+    cov.rule = "every run is the real binary with a scripted stdin (pipe closed after the script). INT 21h/02: all 256 DL values x 2 prior AL. INT 21h/01: 13 stdin shapes (closed, empty line, empty line(s) followed by a line, short, exactly capacity, longer, no trailing newline, two lines, 300 characters, UTF-8) x 2 prior AL, followed by a second read and an echo. INT 21h/0Ah: 5 buffer placements (low, offset wrap at 16 bits, crossing 2^20, ending exactly at 0xFFFFF, header split by the wrap) x capacities {0,1,2,5,16,255} (thorough: all 256) x the stdin shapes, the buffer surrounded by 0xEE markers; plus a line of 1-, 2-, 3- and 4-byte characters cut by every capacity 0..length+1 (the cut falls inside a character). INT 10h/0Ah: AL x CX lattice (thorough: all 256 AL x 15 CX up to 65535). INT 10h/13h: 6 (ES,BP) placements incl. text whose high bytes form well-formed UTF-8, strings crossing 2^20 and BP+i wrapping at 16 bits x DL x CX (thorough: all 256 DL x 12 CX up to 65535). Every AH value 0..255 other than the supported ones for both interrupts, at the first / a middle / the last line. All 25 ordered pairs of services x 4 stdin scripts (thorough: all 125 ordered triples x 4 scripts). After each service the program prints all registers, the flags, the marker window around the buffer, the first 48 and the last 48 bytes of memory; service output is matched byte for byte and every printed field against the reference state. Every distinct program that reads input also runs once with a standard input on which every read fails and must end normally".into();
     cov.bounds = json!({"groups": groups.iter().map(|(n, k)| json!({"group": n, "runs": k})).collect::<Vec<_>>(), "service_output_bytes_matched": out_bytes.load(Ordering::Relaxed), "unsupported_reports_checked": unsup.load(Ordering::Relaxed), "cases_conforming_only_in_dos_encoding": dos_mode_used.load(Ordering::Relaxed), "programs_run_with_unreadable_stdin": unreadable.load(Ordering::Relaxed), "tier": tier.name()});
     cov.assumptions = common_assumptions();
     cov.assumptions.push("characters >= 0x80 may be written as the raw byte or as the UTF-8 encoding of the same code point".into());
